@@ -184,6 +184,20 @@ func runCheck(eng *Engine, args []string, tier string, timeout, par int) int {
 			assumedElsewhere[k] = true
 		}
 	}
+	// an at-call assertion that matched no call in any case of its function (callee gone, or it names a local that no
+	// longer exists) would otherwise vanish silently
+	seenAC := map[string]bool{}
+	for _, j := range jobs {
+		for _, ac := range j.con.AtCalls {
+			k := fmt.Sprintf("%s:%d", ac.Clause.File, ac.Clause.Line)
+			if seenAC[k] || eng.acApplied[k] || (ac.Clause.Tier == "thorough" && tier != "thorough") || !clauseCountsFor(ac.Clause.Labels, prop) {
+				continue
+			}
+			seenAC[k] = true
+			all = append(all, &Obl{Name: fmt.Sprintf("%s.%s/at-call/%s/never-applied@%d", j.fn.Pkg.Pkg.Name(), j.con.Func, ac.Callee, ac.Clause.Line), Kind: "subset", Labels: ac.Clause.Labels, Clause: ac.Clause.Text,
+				Failed: "at-call assertion matched no call (callee not called any more, or a name in it is not in scope at the call)", Func: j.fn.String()})
+		}
+	}
 	for _, m := range missing {
 		all = append(all, &Obl{Name: "contract/" + m + "/function-missing", Kind: "subset", Failed: "contract refers to a function that no longer exists", Func: m})
 	}
